@@ -458,8 +458,8 @@ func (w *world) tLock(inc *incM, fh []byte, newOwner bool, sid nfsv4.Stateid4, h
 	t := &tmpl{kind: "lock", stateOp: true, data: map[string]any{}}
 	var locker nfsv4.Locker4
 	if newOwner {
-		locker = &nfsv4.Locker4_TRUE{OpenOwner: nfsv4.OpenToLockOwner4{OpenStateid: sid, LockOwner: nfsv4.LockOwner4{Clientid: inc.clientID, Owner: []byte(lockOwner)}}}
-		t.desc = fmt.Sprintf("PUTFH %s; LOCK(%s %s, new lock-owner %q via open %s %s)", w.fhName(fh), typName(typ), r.desc, lockOwner, fmtSID(sid), how)
+		locker = &nfsv4.Locker4_TRUE{OpenOwner: nfsv4.OpenToLockOwner4{OpenStateid: sid, LockOwner: nfsv4.LockOwner4{Clientid: w.wireOwnerClientID(inc), Owner: []byte(lockOwner)}}}
+		t.desc = fmt.Sprintf("PUTFH %s; LOCK(%s %s, new lock-owner %q (clientid field %#x) via open %s %s)", w.fhName(fh), typName(typ), r.desc, lockOwner, locker.(*nfsv4.Locker4_TRUE).OpenOwner.LockOwner.Clientid, fmtSID(sid), how)
 	} else {
 		locker = &nfsv4.Locker4_FALSE{LockOwner: nfsv4.ExistLockOwner4{LockStateid: sid}}
 		t.desc = fmt.Sprintf("PUTFH %s; LOCK(%s %s, existing lock state %s %s)", w.fhName(fh), typName(typ), r.desc, fmtSID(sid), how)
@@ -566,10 +566,11 @@ func (w *world) tLock(inc *incM, fh []byte, newOwner bool, sid nfsv4.Stateid4, h
 
 func (w *world) tLockT(inc *incM, fh []byte, lockOwner string, typ int, r lockRange) *tmpl {
 	t := &tmpl{kind: "lockt", data: map[string]any{}}
-	t.desc = fmt.Sprintf("PUTFH %s; LOCKT(%s %s, owner %q)", w.fhName(fh), typName(typ), r.desc, lockOwner)
+	wireCID := w.wireOwnerClientID(inc)
+	t.desc = fmt.Sprintf("PUTFH %s; LOCKT(%s %s, owner %q (clientid field %#x))", w.fhName(fh), typName(typ), r.desc, lockOwner, wireCID)
 	t.ops = []nfsv4.NfsArgop4{
 		opPutFH(fh),
-		&nfsv4.NfsArgop4_OP_LOCKT{Oplockt: nfsv4.Lockt4args{Locktype: wireLockType(typ, false), Offset: r.offset, Length: r.length, Owner: nfsv4.LockOwner4{Clientid: inc.clientID, Owner: []byte(lockOwner)}}},
+		&nfsv4.NfsArgop4_OP_LOCKT{Oplockt: nfsv4.Lockt4args{Locktype: wireLockType(typ, false), Offset: r.offset, Length: r.length, Owner: nfsv4.LockOwner4{Clientid: wireCID, Owner: []byte(lockOwner)}}},
 	}
 	key := lockOwnerKey(inc.clientID, lockOwner)
 	t.atExec = func(c *call) {
